@@ -81,8 +81,10 @@ type Client struct {
 	buf []byte
 }
 
-func Dial(port int) (*Client, error) {
-	c, err := net.DialTimeout("tcp", fmt.Sprintf("127.0.0.1:%d", port), 5*time.Second)
+func Dial(port int) (*Client, error) { return DialHost("127.0.0.1", port) }
+
+func DialHost(host string, port int) (*Client, error) {
+	c, err := net.DialTimeout("tcp", fmt.Sprintf("%s:%d", host, port), 5*time.Second)
 	if err != nil {
 		return nil, err
 	}
